@@ -615,3 +615,8 @@ Proof.
   rewrite En. simpl. rewrite renumber_edges_ok by (rewrite Lm2; auto). simpl.
   eexists; split; [reflexivity | exact I].
 Qed.
+
+(* idempotence fails as well for the test inside Less: the numbering on which the duplicate
+   of the root is noticed yields the breadth-first order, and on that order it is not noticed *)
+Lemma canon_less_not_idem : exists h, canon false w_g' = Ok h /\ canon false h <> Ok h.
+Proof. eexists. split; [vm_compute; reflexivity|]. vm_compute. discriminate. Qed.
